@@ -335,7 +335,7 @@ class Services:
             call = ServiceCall(d, s, data or {}, context, return_response)
         res = r[0](call)
         if asyncio.iscoroutine(res): res = await res
-        return res
+        return res if return_response else None          # (Home Assistant hands a response back only when it was asked for)
 class Bus:
     def __init__(self, hass): self.l = {}; self.hass = hass; self.fired = []
     def async_listen(self, et, cb, *a, **k):
